@@ -194,10 +194,6 @@ class AcctWorld(BufWorld):
         if outside_ctx:
             return done
         saves = mut
-        if h.kind == "list" and m == "pop":
-            saves = model.ok            # mixin: getitem, then delitem
-        if h.kind == "list" and m == "reverse":
-            saves = n_before >= 2       # mixin: one setitem pair per swap
         self._account(r, pre_in, pre_bytes, loads=not no_load, saves=saves,
                       maybe_no_load=(m == "index"))
         return done
